@@ -192,3 +192,39 @@ M.loop(P + ':bad_numbered', 0,
        modifies=dict(n=Int, line='local', yielded='len'))
 
 EXPECTED_REFUTED.add(P + ':bad_numbered : loop#0 invariant[preserved]')
+
+
+def ok_collect_positive(xs):
+    out = []
+    for x in xs:
+        if x > 0:
+            out.append(x)
+    return out
+
+
+from pyvc.api import MListOf  # noqa: E402
+
+M.contract(P + ':ok_collect_positive', params=dict(xs=ListOf(Int)), returns=MListOf(Int),
+           ensures={'only-positive': lambda result: forall_range(0, len(result), lambda k: result[k] > 0),
+                    'not-longer': lambda xs, result: len(result) <= len(xs)},
+           raises_only=())
+M.loop(P + ':ok_collect_positive', 0,
+       invariant=lambda _i, out: len(out) <= _i and forall_range(0, len(out), lambda k: out[k] > 0),
+       modifies=dict(out=MListOf(Int), x='local'))
+
+
+def ok_out_param(xs, acc):
+    for x in xs:
+        acc.append((x, x + 1))
+    return len(acc)
+
+
+M.contract(P + ':ok_out_param', params=dict(xs=ListOf(Int), acc=MListOf(FixedList(Int, Int, as_tuple=True))),
+           old=lambda acc: len(acc), returns=Int,
+           ensures={'appended': lambda xs, acc, old, result: result == old + len(xs) and len(acc) == result
+                    and forall_range(0, len(xs), lambda k: acc[old + k][1] == xs[k] + 1)},
+           raises_only=())
+M.loop(P + ':ok_out_param', 0,
+       invariant=lambda _i, xs, acc, old: len(acc) == old + _i and forall_range(
+           0, _i, lambda k: acc[old + k][1] == xs[k] + 1),
+       modifies=dict(acc=MListOf(FixedList(Int, Int, as_tuple=True)), x='local'))
